@@ -119,7 +119,7 @@ accepting run yields a tree whose leaves are exactly the token string — in par
 theorem glr_yield (tbl : Table) (toks : List Nat) (t : PTree) (h : t ∈ parseAll tbl toks) :
     t.leaves = toks ++ [0] := by
   unfold parseAll at h
-  simpa [stackLeaves] using runAll_yield tbl _ _ t h
+  simpa [stackLeaves] using runAll_yield acceptTree acceptTree_leaves tbl _ _ t h
 
 /-- `glr_select_max`: the tree kept among all accepting runs is one of them and no other accepting
 run has a greater dynamic precedence ("the one with the greater value is kept"). -/
@@ -127,16 +127,18 @@ theorem glr_select_max (tbl : Table) (toks : List Nat) (t : PTree) (h : selectBe
     t ∈ parseAll tbl toks ∧ ∀ u, u ∈ parseAll tbl toks → u.dynPrec ≤ t.dynPrec :=
   ⟨selectBest_mem _ t h, selectBest_max _ t h⟩
 
-/-- `dyn_sound`: every (string, total) pair of the dynamic-precedence oracle comes from a derivation
-of the start rule whose `PREC_DYNAMIC` values sum to that total — so the `best` value the judge
-compares the kept tree against is the value of an actual competing derivation. -/
-theorem dyn_sound (g : Grammar) (L : Nat) (b : Rule) (e : List Tok × Int)
-    (hb : g.body g.start = some b) (hnt : isTerminalBody b = false) (he : e ∈ (dynOracle g L).1) :
-    DerivesTokD g (.sym g.start) e.1 e.2 := by
-  unfold dynOracle at he
-  simp only at he
-  exact .symRule hb hnt
-    (enumFixD_sound g L _ 0 [] (by intro x e he; simp [EnvD.get] at he) g.start e he b hb hnt)
+/-- `dyn_sound`: every item of the dynamic-precedence oracle is backed by a derivation of the start
+rule's body with exactly that bookkeeping (`own`/`inl`: the value of the start production itself,
+`e`: the sum of the values of all productions below it — what the root of a real tree carries) — so
+the `best` value the judge compares the kept tree against is the value of an actual competing
+derivation, computed with the generator's per-production rule (first value of greatest magnitude,
+an inlined rule's value competing with the outer production's own one). -/
+theorem dyn_sound (g : Grammar) (L : Nat) (b : Rule) (d : DItem)
+    (hb : g.body g.start = some b) (hnt : isTerminalBody b = false) (hd : d ∈ (dynOracle g L).1) :
+    DerivesTokD g b d.w d.own d.inl d.e := by
+  unfold dynOracle at hd
+  simp only at hd
+  exact enumFixD_sound g L _ 0 [] (by intro x e he; simp [EnvD.get] at he) g.start d hd b hb hnt
 
 /-- `pratt_yield`: the tree the precedence-climbing parser returns is a tree over exactly the given tokens. -/
 theorem pratt_yield (t : OpTable) (toks : List OpTok) (e : ETree) (h : pratt t toks = some e) : e.yield = toks := by
